@@ -34,6 +34,7 @@ func checkSpecs() map[string]CheckSpec {
 	add(CheckSpec{Property: "C04", Harnesses: []HarnessSpec{
 		{Func: "HC04_WKB", Domain: B, Covers: []string{"decoded", "error", "too-large"}},
 		{Func: "HC04_EWKB", Domain: B, Covers: []string{"decoded", "error", "too-large"}},
+		{Func: "HC04_Polygon", Domain: B, Covers: []string{"decoded", "error", "too-large"}},
 	}, Explanation: "wkb.Unmarshal / ewkb.Unmarshal executed on an arbitrary symbolic byte string of symbolic length with symbolic per-level limits."})
 	add(CheckSpec{Property: "C08", Harnesses: []HarnessSpec{
 		{Func: "HC08_Tight", Domain: DomainK, Covers: []string{"end"}},
